@@ -250,3 +250,15 @@ Theorem C06_snapshot_generated_disk_layer :
   forall c, sorted c -> view_ok [] (disk_of_content c) c.
 Proof. exact view_genesis. Qed.
 Print Assumptions C06_snapshot_generated_disk_layer.
+
+(** (f) Source tie: the guards and integer expressions of validateBlock, CreateProposalBlock,
+    calculateValidatorSetUpdates, updateState, ApplyTransaction (cumulative gas), bloomValues /
+    Bloom.add, StateDB.Finalise / IntermediateRoot / createObject / getStateObject,
+    stateObject.GetCommittedState / AddBalance / SubBalance / empty / updateTrie,
+    resetObjectChange.revert, snapshot diffLayer.flatten / Tree.Cap / Tree.cap / diffToDisk are
+    translated from /repo's Go source on every check (Generated/C06Source.v); the decisions the
+    model takes ARE those expressions on those operands (statement spelled out in SourceTie.v). *)
+From Kardia Require Import C06.SourceTie.
+Theorem C06_source_tie : C06_source_tie_statement.
+Proof. exact C06_source_tie_proof. Qed.
+Print Assumptions C06_source_tie.
